@@ -1,3 +1,4 @@
+#![allow(unreachable_pub, dead_code, missing_docs, unused_imports, unused_variables, unused_mut, static_mut_refs, clippy::all)]
 // Kani harnesses for iroh-relay/src/protos/relay.rs (C10 frames, C16 take_segments).
 use super::*;
 use iroh_base::verif_support as vs;
@@ -18,7 +19,10 @@ pub(crate) fn any_bytes<const N: usize>(buf: &[u8; N]) -> (Bytes, usize) {
     let len: usize = kani::any();
     kani::assume(len <= N);
     let leaked: &'static [u8; N] = Box::leak(Box::new(*buf));
-    (Bytes::from_static(&leaked[..]).slice(..len), len)
+    // truncate (not slice): keeps a valid non-null pointer even for len == 0
+    let mut b = Bytes::from_static(&leaked[..]);
+    b.truncate(len);
+    (b, len)
 }
 
 // ------------------------------------------------------------------ C16
